@@ -3,6 +3,7 @@
     proved in [Util/PluginRefProofs.v] and followed by [Print Assumptions]. *)
 From Coq Require Import List String NArith Bool Sorted Permutation.
 From MV Require Import Base.Cmp Util.PluginRef Util.PluginRefProofs.
+From MV Require Import Util.EpName Util.EpNameProofs.
 Import ListNotations.
 
 (** [>=] is a total order consistent with [==] ... *)
@@ -104,4 +105,119 @@ Example C16_nonvacuous :
   resolve (register_all rs) "g" "aa" (Some (1,(1,0))%N) = Some (mkref "g" "aa" (1,(2,0))%N) /\
   resolve (register_all rs) "g" "aa" None = Some (mkref "g" "aa" (2,(0,0))%N) /\
   resolve (register_all rs) "g" "aa" (Some (3,(0,0))%N) = None.
+Proof. vm_compute. repeat split. Qed.
+
+(** ** Entry-point names convert to (name, version) and back without loss
+    ([plugin/types.py]; model [Util/EpName.v]: the regular expressions of the source as
+    terms, [valid_qualname]/[valid_semver]/[valid_epname] = [re.fullmatch] on them). *)
+Local Open Scope string_scope.
+
+(** The matcher decides the standard language of a regular expression. *)
+Theorem C16_fullmatch_spec : forall s r, matchb r s = true <-> Matches r s.
+Proof. exact matchb_spec. Qed.
+Print Assumptions C16_fullmatch_spec.
+
+(** For ALL valid qualified names and ALL versions (unbounded numerals): decode after encode. *)
+Theorem C16_epname_roundtrip : forall n v,
+  valid_qualname n = true -> from_ep_name (to_ep_name n v) = Some (n, v).
+Proof. exact epname_roundtrip. Qed.
+Print Assumptions C16_epname_roundtrip.
+
+(** The literal transcription of the source (split at "__", [SemVerStr] validation, split at
+    ".", [int]) is the same function as [from_ep_name], on every string incl. refusals ... *)
+Theorem C16_from_ep_name_py_equiv : forall s, from_ep_name_py s = from_ep_name s.
+Proof. exact from_ep_name_py_equiv. Qed.
+Print Assumptions C16_from_ep_name_py_equiv.
+
+(** ... so the round trip holds for it too. *)
+Theorem C16_epname_roundtrip_py : forall n v,
+  valid_qualname n = true -> from_ep_name_py (to_ep_name n v) = Some (n, v).
+Proof. exact epname_roundtrip_py. Qed.
+Print Assumptions C16_epname_roundtrip_py.
+
+(** [to_ep_name] (with its [EPName(...)] validation) succeeds exactly on valid qualified
+    names, whatever the version; its result is always a valid entry-point name. *)
+Theorem C16_epname_valid : forall n v, valid_epname (to_ep_name n v) = valid_qualname n.
+Proof. exact epname_valid. Qed.
+Print Assumptions C16_epname_valid.
+
+Theorem C16_to_ep_name_py_spec : forall n v,
+  to_ep_name_py n v = if valid_qualname n then Some (to_ep_name n v) else None.
+Proof. exact to_ep_name_py_spec. Qed.
+Print Assumptions C16_to_ep_name_py_spec.
+
+(** Encoding is injective on valid names. *)
+Theorem C16_epname_inj : forall n v n' v',
+  valid_qualname n = true -> valid_qualname n' = true ->
+  to_ep_name n v = to_ep_name n' v' -> n = n' /\ v = v'.
+Proof. exact epname_inj. Qed.
+Print Assumptions C16_epname_inj.
+
+(** The name rule once more, as an explicit automaton ([qstep]: letter, letter-or-digit, then
+    letters/digits each optionally preceded by one "_" or "-"; "." starts the next part). *)
+Theorem C16_qualname_automaton : forall n, valid_qualname n = qrun QStart n.
+Proof. exact valid_qualname_automaton. Qed.
+Print Assumptions C16_qualname_automaton.
+
+(** A valid qualified name never contains "__" and never ends in "_" (every "_" is followed
+    by another character that is not "_"): the separator cannot be confused. *)
+Theorem C16_qualname_no_separator : forall n, valid_qualname n = true -> us_ok n = true.
+Proof. exact valid_qualname_us_ok. Qed.
+Print Assumptions C16_qualname_no_separator.
+
+(** Every valid entry-point name decodes, and to a valid qualified name. *)
+Theorem C16_epname_decodes : forall s,
+  valid_epname s = true ->
+  exists n v, from_ep_name s = Some (n, v) /\ valid_qualname n = true.
+Proof. exact epname_decodes. Qed.
+Print Assumptions C16_epname_decodes.
+
+(** Encode after decode: gives the string back exactly when the three numerals of its
+    version part are canonical ("0" or no leading zero) ... *)
+Theorem C16_epname_inverse : forall s n v,
+  from_ep_name s = Some (n, v) -> (to_ep_name n v = s <-> canon_epname s = true).
+Proof. exact epname_inverse. Qed.
+Print Assumptions C16_epname_inverse.
+
+(** ... and not in general: [EP_NAME_REGEX] admits leading zeros, which decoding drops. *)
+Theorem C16_epname_inverse_noncanonical_refuted :
+  exists s n v, valid_epname s = true /\ from_ep_name s = Some (n, v) /\ to_ep_name n v <> s.
+Proof. exact epname_inverse_noncanonical_refuted. Qed.
+Print Assumptions C16_epname_inverse_noncanonical_refuted.
+
+(** Version strings: [to_semver_str] output is a [SemVerStr] and parses back. *)
+Theorem C16_semver_roundtrip : forall v,
+  valid_semver (semver_str v) = true /\
+  from_semver_str (semver_str v) = [Some (fst v); Some (fst (snd v)); Some (snd (snd v))] /\
+  parse_semver (semver_str v) = Some v.
+Proof. exact semver_roundtrip. Qed.
+Print Assumptions C16_semver_roundtrip.
+
+(** A version string is valid iff it splits at "." into exactly three non-empty digit strings. *)
+Theorem C16_semver_spec : forall p,
+  valid_semver p = true <->
+  exists a b c, split_dot p "" = [a; b; c] /\
+                digits1 a = true /\ digits1 b = true /\ digits1 c = true.
+Proof. exact valid_semver_spec. Qed.
+Print Assumptions C16_semver_spec.
+
+(** Non-vacuity of the codec theorems: the name rules of the source, refusals, big numerals. *)
+Example C16_qualname_examples :
+  map valid_qualname ["aa"; "a0"; "aa.bb"; "a1_b.cc-d"; "core.file"; "x1_2-3.yy"] =
+    [true; true; true; true; true; true] /\
+  map valid_qualname [""; "a"; "aa.b"; "a_b"; "ab_"; "ab__cd"; "a-_b"; "AA"; "1a"; "aa."; ".aa"; "aa..bb"; "aa bb"] =
+    [false; false; false; false; false; false; false; false; false; false; false; false; false].
+Proof. vm_compute. split; reflexivity. Qed.
+
+Example C16_from_ep_name_examples :
+  from_ep_name "ab-c_d.e0__10.18446744073709551616.3" = Some ("ab-c_d.e0", (10, (18446744073709551616, 3)))%N /\
+  from_ep_name "aa__01.002.3" = Some ("aa", (1, (2, 3)))%N /\
+  from_ep_name "AA__1.2.3" = Some ("AA", (1, (2, 3)))%N /\
+  map from_ep_name ["aa"; "aa__"; "aa__1.2"; "aa__1.2.3.4"; "aa__1..3"; "aa__1.2.x"; "aa__1.2.3__";
+                    "aa__bb__1.2.3"; "aa___1.2.3"; "aa____1.2.3"; "aa__+1.2.3"; "aa__1.2.3 "] =
+    [None; None; None; None; None; None; None; None; None; None; None; None] /\
+  to_ep_name "aa.bb" (10, (0, 123456789012345678901234567890))%N = "aa.bb__10.0.123456789012345678901234567890" /\
+  to_ep_name_py "ab_" (1, (2, 3))%N = None /\
+  from_ep_name (to_ep_name "ab_" (1, (2, 3))%N) = None /\
+  from_ep_name (to_ep_name "ab__cd" (1, (2, 3))%N) = None.
 Proof. vm_compute. repeat split. Qed.
